@@ -195,14 +195,25 @@ func (s *initialCryptoStream) Write(p []byte) (int, error) {
 			return len(p), nil
 		}
 		s.end = protocol.ByteCount(len(s.writeBuf))
-		s.cuts[0].start = protocol.ByteCount(sniPos + sniLen/2) // right in the middle
-		s.cuts[0].end = protocol.ByteCount(sniPos + sniLen)
+		if sniPos != -1 && sniLen > 0 { // no host name, or an empty one: nothing to cut there
+			s.cuts[0].start = protocol.ByteCount(sniPos + sniLen/2) // right in the middle
+			s.cuts[0].end = protocol.ByteCount(sniPos + sniLen)
+		}
 		if echPos > 0 {
 			// ECH extension found, cut the ECH extension type value (a uint16) in half
 			start := protocol.ByteCount(echPos + 1)
 			s.cuts[1].start = start
 			// cut somewhere (16 bytes), most likely in the ECH extension value
 			s.cuts[1].end = min(start+16, s.end)
+		}
+		if s.cuts[0].start == protocol.InvalidByteCount && s.cuts[1].start == protocol.InvalidByteCount {
+			// neither cut is usable: send the ClientHello unscrambled
+			s.scramble = false
+			return len(p), nil
+		}
+		if s.cuts[0].start == protocol.InvalidByteCount {
+			// HasData and Write treat cuts[0] as "cuts chosen": keep the valid cut first
+			s.cuts[0], s.cuts[1] = s.cuts[1], s.cuts[0]
 		}
 		slices.SortFunc(s.cuts[:], func(a, b clientHelloCut) int {
 			if a.start == protocol.InvalidByteCount {
